@@ -16,6 +16,12 @@ def replay(prop, path):
                 print("VIOLATION property=%s replay=%s" % (prop, path))
                 return 1
         return 0
+    if "program" in r:
+        import he_trace
+        rc = he_trace.replay_program(prop, r)
+        if rc:
+            print("VIOLATION property=%s replay=%s" % (prop, path))
+        return rc
     if "cmd" in r:
         out = hcv(r["cmd"])
         print(out[-2000:])
